@@ -10,7 +10,9 @@ def context(seed):
     n = 18 + seed % 5
     idx = pd.RangeIndex(3, 3 + n)
     y = pd.Series(50 + np.arange(n) * 0.5 + rng.rand(n), index=idx)
-    X = pd.DataFrame({"x": np.arange(n) * 1.0 + rng.rand(n)}, index=idx)
+    # valid exogenous data live on y's time points; the index OBJECT need not be the same (another index class, a name)
+    xidx = [idx, pd.Index(np.arange(3, 3 + n)), pd.RangeIndex(3, 3 + n, name="time")][seed % 3]
+    X = pd.DataFrame({"x": np.arange(n) * 1.0 + rng.rand(n)}, index=xidx)
     return {"y": y, "X": X, "n": n, "variant": seed}
 
 
@@ -195,6 +197,18 @@ def rows():
             return lambda: (f.predict([1, 2]), f)
         add("reduce_%s.predict" % strat, "horizon_differs_from_fit", faulty_diff, control_same)
 
+    def mkpipe():
+        return TransformedTargetForecaster([("d", Detrender()), ("f", make_reduction(ZeroDimLinear(), strategy="direct", window_length=3))])
+
+    def faulty_pd(c):
+        f = mkpipe().fit(c["y"], fh=[1, 2])
+        return lambda: (f.predict([1, 3]), f)
+
+    def control_pd(c):
+        f = mkpipe().fit(c["y"], fh=[1, 2])
+        return lambda: (f.predict([1, 2]), f)
+    add("pipeline.predict", "horizon_differs_from_fit", faulty_pd, control_pd)
+
     def faulty_stack(c):
         f = StackingForecaster([("a", NaiveForecaster()), ("b", PolynomialTrendForecaster())], final_regressor=LinearRegression())
         return lambda: (f.fit(c["y"]), f)
@@ -323,7 +337,10 @@ def rows():
         add("tuner.fit", fault, (lambda c, kwf=kwf: tuner(c, **kwf(c))), (lambda c: tuner(c)))
     for fault, kwf in (("horizon_and_size_both_given", lambda c: dict(fh=ForecastingHorizon([1, 2]), test_size=3)),
                        ("insample_horizon", lambda c: dict(fh=ForecastingHorizon([-1, 1]))),
-                       ("x_index_differs", lambda c: dict(fh=ForecastingHorizon([1, 2]), X=c["X"].iloc[1:]))):
+                       ("x_index_differs", lambda c: dict(
+                           fh=(ForecastingHorizon([1, 2]) if c["variant"] % 2 == 0
+                               else ForecastingHorizon(pd.Index(list(c["y"].index[-2:])), is_relative=False)),
+                           X=c["X"].iloc[1:]))):
         add("temporal_train_test_split", fault, (lambda c, kwf=kwf: (lambda: (temporal_train_test_split(c["y"], **kwf(c)), None))),
             (lambda c: (lambda: (temporal_train_test_split(c["y"], fh=ForecastingHorizon([1, 2])), None))))
     for fault, mkv in (("duplicate_horizon", lambda: ([1, 1], True)), ("fractional_horizon", lambda: (np.array([0.5, 1]), True)),
